@@ -240,6 +240,16 @@ def cases(size, seed):
             out.append(('div', Decimal('%sE%d' % (c, ea)), Decimal('%sE%d' % (c, -eb))))
         for e in (12288, 12286, 12290, -12286, -12352, -12354):
             out.append(('sqrt', Decimal('%sE%d' % (c, e)) if abs(e) <= 6144 else Decimal('%sE%d' % (c, 6144 if e > 0 else -6176)), None))
+    # square roots whose 35th digit onwards lies just above or below a rounding midpoint need the final correction step of the library: every
+    # coefficient 1..9999 (quick) / 1..99999 (thorough) at an even and an odd exponent, plus seeded random long coefficients
+    top = 10000 if size == 'quick' else 100000
+    for n in range(1, top):
+        out.append(('sqrt', Decimal('%dE-2' % n), None))
+        if size != 'quick' or n % 4 == 0:
+            out.append(('sqrt', Decimal('%dE-3' % n), None))
+    for _ in range(2000 if size == 'quick' else 100000):
+        nd = rnd.choice([5, 6, 7, 8, 9, 10, 12, 16, 17, 20, 33, 34])
+        out.append(('sqrt', Decimal('%dE%d' % (rnd.randrange(10 ** (nd - 1), 10 ** nd), rnd.choice([-40, -7, -2, -1, 0, 1, 6, 31]))), None))
     # only operands that ARE decimal128 values (the generated families above may name values below the subnormal step)
     def rep(v):
         if v is None:
